@@ -339,7 +339,7 @@ pub fn run_cycle(out: &mut Out, rng: &mut Rng, thorough: bool) {
 pub fn run_clip1(out: &mut Out, rng: &mut Rng, thorough: bool) {
     let reps = if thorough { 60 } else { 8 };
     for _ in 0..reps {
-        for fam in ["lattice", "lattice_wall", "cospherical_lattice", "on_boundary", "coplanar"] {
+        for fam in ["lattice", "lattice_wall", "cospherical_lattice", "pythagorean", "on_boundary", "coplanar", "uniform"] {
             for (dim, periodic) in [(3usize, false), (3, true), (2, false), (2, true)] {
                 let n = 6 + rng.below(24) as usize;
                 let inp = gen::make(rng, fam, dim, periodic, n);
@@ -348,10 +348,9 @@ pub fn run_clip1(out: &mut Out, rng: &mut Rng, thorough: bool) {
                     Ok(Some(sc)) => sc,
                     _ => continue,
                 };
+                // every vertex is reported; `tie` says whether the float filter of this build asked for the exact predicate
                 let ties: Vec<usize> = (0..sc.cell.vertices.len()).filter(|&i| sc.hs.clip(sc.cell.vertices[i].loc) == 0.).collect();
-                if ties.is_empty() {
-                    continue;
-                }
+                let all: Vec<usize> = (0..sc.cell.vertices.len()).collect();
                 let mut reference = sc.cell.clone();
                 meshless_voronoi::verif_hooks::reset_exact_test_count();
                 let ok = guarded(std::panic::AssertUnwindSafe(|| vh::cell_clip(&mut reference, sc.hs.clone(), &sc.gens, &sc.boundary)));
@@ -362,8 +361,9 @@ pub fn run_clip1(out: &mut Out, rng: &mut Rng, thorough: bool) {
                 }
                 let kept: std::collections::HashSet<[usize; 3]> = reference.vertices.iter().map(|v| canon(v.dual)).collect();
                 let idx = sc.cell.idx;
-                for &i in &ties {
+                for &i in &all {
                     let v = &sc.cell.vertices[i];
+                    let is_tie = ties.contains(&i);
                     let pts = [
                         sc.cell.loc,
                         sc.cell.clipping_planes[v.dual[0]].right_loc(idx, &sc.gens),
@@ -384,7 +384,7 @@ pub fn run_clip1(out: &mut Out, rng: &mut Rng, thorough: bool) {
                         continue;
                     }
                     let removed = !kept.contains(&canon(v.dual));
-                    out.rec("clip1", &inp.family, s.trim_end(), &format!("{} {} {}", if removed { "removed" } else { "kept" }, ties.len(), calls));
+                    out.rec("clip1", &inp.family, s.trim_end(), &format!("{} {} {} {}", if removed { "removed" } else { "kept" }, ties.len(), calls, if is_tie { "tie" } else { "clear" }));
                 }
             }
         }
